@@ -48,6 +48,12 @@ TRUSTED_BASE = [
     "target (exercised by the harness incl. moving the files, not modelled)",
     "numpy indexing semantics (negative indices, slices with step, boolean "
     "and integer arrays) are the reference for both the oracle and the model",
+    "gap: that Export.hdf5 as a whole maps a sound store to a sound store is "
+    "not one theorem; it is covered by the theorems on its parts "
+    "(export_map, hier_map, store_basins, lookup over sound stores) plus "
+    "the correspondence of the whole model function `export` with the code",
+    "hierarchy children are an oracle here: child[f] = root[f] at "
+    "map_indices_child2root (C04 covers them)",
     "not modelled: remote basins, Windows paths, ancillary features, order "
     "of basins with identical priority key (HDF5 key order), caches of "
     "nested proxies (only the outermost proxy's cache is modelled)",
